@@ -59,7 +59,13 @@ def main():
             out.append(r)
             print(json.dumps({k: r.get(k) for k in ('id', 'applies', 'confirmed', 'caught_by')}), flush=True)
     sh(['git', '-C', '/repo', 'worktree', 'prune'])
-    json.dump(out, open(os.path.join(VERIF, 'seeded', 'reconfirm_log.json'), 'w'), indent=1)
+    logp = os.path.join(VERIF, 'seeded', 'reconfirm_log.json')
+    if sys.argv[1:] and os.path.exists(logp):          # a partial run updates the entries of the full log
+        merged = {r['id']: r for r in json.load(open(logp))}
+        merged.update({r['id']: r for r in out})
+        json.dump([merged[k] for k in sorted(merged)], open(logp, 'w'), indent=1)
+    else:
+        json.dump(out, open(logp, 'w'), indent=1)
     bad = [r['id'] for r in out if not r.get('confirmed') or not r.get('caught_by')]
     print('not confirmed or not caught:', bad)
     return 1 if bad else 0
